@@ -190,6 +190,8 @@ func (w *world) decide(r *run, ok bool) bool {
 // ---- the UDP upstream (real sockets on loopback, real time) ---------------------------------
 
 type udpUpstream struct {
+	fenceCh  chan struct{}
+	fenceSrc netip.AddrPort
 	w        *world
 	srv      *net.UDPConn // the configured server
 	oport    *net.UDPConn // same address, another port
@@ -220,6 +222,8 @@ func newUDPUpstream(w *world) (*udpUpstream, error) {
 		return nil, err
 	}
 	u.addrPort = u.srv.LocalAddr().(*net.UDPAddr).AddrPort()
+	u.fenceSrc = u.oport.LocalAddr().(*net.UDPAddr).AddrPort()
+	u.fenceCh = make(chan struct{}, 8)
 	go u.serve()
 	return u, nil
 }
@@ -237,15 +241,22 @@ func (u *udpUpstream) serve() {
 		if err != nil {
 			return
 		}
+		if from == u.fenceSrc && n == 1 && b[0] == 0xFE {
+			select {
+			case u.fenceCh <- struct{}{}:
+			default:
+			}
+			continue
+		}
 		q, perr := parseQuery(b[:n])
 		w := u.w
 		w.mu.Lock()
 		r := w.udpBySrc[from]
 		if r != nil && r.fin {
-			// a late resend of a lookup that has returned (its socket is closed by now)
-			w.strayUDP++
-			w.mu.Unlock()
-			continue
+			// Every datagram of a lookup that has returned was queued before the fence that
+			// precedes the next lookup, so this is a new socket that got the same port.
+			delete(w.udpBySrc, from)
+			r = nil
 		}
 		if r == nil && w.udpStarting != nil {
 			r = w.udpStarting
@@ -268,6 +279,29 @@ func (u *udpUpstream) serve() {
 		}
 		w.mu.Unlock()
 		w.notify()
+	}
+}
+
+// fence returns when the upstream has processed every datagram that was queued on its socket
+// before the call (late resends of lookups that have returned).
+func (u *udpUpstream) fence() {
+	for {
+		select {
+		case <-u.fenceCh:
+			continue
+		default:
+		}
+		break
+	}
+	for range 3 {
+		if _, err := u.oport.WriteToUDPAddrPort([]byte{0xFE}, u.addrPort); err != nil {
+			return
+		}
+		select {
+		case <-u.fenceCh:
+			return
+		case <-time.After(10 * time.Second):
+		}
 	}
 }
 
@@ -320,6 +354,8 @@ type run struct {
 	id   ids
 	msgs []delivered
 	salt int
+
+	stAtStart *storedInfo // what the driver knew to be cached for the name when the call started
 }
 
 func (r *run) traffic() bool {
@@ -453,6 +489,10 @@ func (w *world) startLookup(p, nameTok string) *run {
 		startNow: w.now, salt: int(uint64(w.seed)+uint64(w.bi)*13+uint64(w.nlook)) % 1000}
 	ctx, cancel := context.WithCancel(context.Background())
 	r.ctx, r.cancel = context.WithValue(ctx, ctxKey{}, r), cancel
+	r.stAtStart = w.stored[nameTok]
+	if w.up != nil {
+		w.up.fence()
+	}
 	w.mu.Lock()
 	w.runs[p] = r
 	if w.hasUdp {
